@@ -27,6 +27,7 @@ RULE = ('chains of depth 10..2000 (quick) / 5000 (thorough) and wide fan-out gra
 EXHAUSTIVE = {'quick': False, 'thorough': False}
 ASSUMPTIONS = ['CPython reference counting frees unreachable tensors promptly (observed through weakref after gc.collect)']
 TRUSTED_BASE = ['harness/tprog.py']
+TRUSTED_BASE = TRUSTED_BASE + ['harness/engine_logic.py (reading of the conditions, context transitions, loop skeletons and class method surfaces of tensor.py / nn/modules.py, Generated/EngineLogic.lean; the Boolean translation is validated on every run by the `logic` family of C07)']
 
 
 def chain(rng, depth, pos='first'):
